@@ -237,10 +237,12 @@ func c07BranchEffects(c *core.Ctx) {
 		if e.what != "onError" {
 			continue
 		}
-		retNext := false
-		for _, r := range returnsIn(u) {
-			if g.Dominates(e.cl.Loc, r.Loc) && r.Loc.B == e.cl.Loc.B {
-				retNext = true
+		// nothing follows the report: no timer, send or heartbeat effect is reachable after it (an explicit return, or the
+		// end of the case in if/else form)
+		retNext := true
+		for _, o := range effs {
+			if o.cl != e.cl && g.CanFollow(e.cl.Loc, o.cl.Loc) {
+				retNext = false
 			}
 		}
 		msg := ""
@@ -252,7 +254,7 @@ func c07BranchEffects(c *core.Ctx) {
 				return true
 			})
 		}
-		c.Check(R, keyf("%s/onError→return#%s", sockOnPacket, c.P.PosStr(e.cl.Pos())), e.cl.Pos(), retNext, keyf("transport error %s, then return", msg))
+		c.Check(R, keyf("%s/onError→return#%s", sockOnPacket, c.P.PosStr(e.cl.Pos())), e.cl.Pos(), retNext, keyf("transport error %s, and nothing after it", msg))
 	}
 	// onError closes with 'transport error'
 	if oe := c.Fn(R, "engine.(*socket).onError"); oe != nil {
